@@ -372,7 +372,20 @@ func c04Check(ctx *vfCtx, c c04Case) {
 	}
 	// ... and, whoever has to sign this kind of event (the invited user's server, the authorising
 	// user's server): if only redactable material was altered, the verdict is the original event's
-	if sameRedaction && len(c.Tampers) > 0 {
+	viaLost := false
+	if oc, ok := orig.get("content"); ok {
+		if _, has := oc.get("join_authorised_via_users_server"); has {
+			rc, _ := rredact(c.Version, orig).get("content")
+			_, kept := rc.get("join_authorised_via_users_server")
+			viaLost = !kept
+		}
+	}
+	if viaLost {
+		// room version 8 redacts the very key that names a required signer (the reason version 9
+		// exists): the redacted form cannot need what it no longer says - not judged
+		ctx.Class("authorising-user-is-redactable-in-this-version(signature verdict not compared)")
+	}
+	if sameRedaction && len(c.Tampers) > 0 && !viaLost {
 		var oev PDU
 		var oerr, serr0 error
 		if vfCatch(ctx, "C04/original", func() {
